@@ -439,161 +439,177 @@ const SM_POLLN: u32 = 4;
 const SM_TRY: u32 = 5;
 const SM_CANCEL: u32 = 6;
 
-fn t_sem(cfg: &Cfg) {
-    let fair = cfg_get(cfg, "fair", 0) != 0;
-    let n = cfg_get(cfg, "threads", 3) as usize;
-    let iters = cfg_get(cfg, "iters", 2) as usize;
-    let p0 = cfg_get(cfg, "permits", 0) as u64;
-    let grants = cfg_get(cfg, "grants", 2) as u64;
-    let p_budget = cfg_get(cfg, "p_budget", 0) as u64;
-    let total = p0 + grants;
-    let sem = Arc::new(GenericSemaphore::<M>::new(fair, p0 as usize));
-    let circ = Arc::new(AtomicU64::new(p0));
-    let held = Arc::new(AtomicU64::new(0));
-    let hist = Arc::new(History::default());
-    let flog = Arc::new(FairLog::default());
-    let mut hs = Vec::new();
-    {
-        let (sem, circ, hist) = (sem.clone(), circ.clone(), hist.clone());
-        hs.push(thread::spawn(move || {
-            for _ in 0..grants {
-                thread::yield_now();
-                circ.fetch_add(1, SeqCst);
-                let inv = hist.stamp();
-                sem.release(1);
-                hist.record(inv, 99, SM_REL, 1, 0);
+/// The T-sem program, once for the borrowed semaphore behind an `Arc` and once for the shared
+/// (`Arc`-internal, cloneable) flavour, whose futures are separate code in the library.
+macro_rules! def_t_sem {
+    ($name:ident, $mk:expr) => {
+        fn $name(cfg: &Cfg) {
+            let fair = cfg_get(cfg, "fair", 0) != 0;
+            let n = cfg_get(cfg, "threads", 3) as usize;
+            let iters = cfg_get(cfg, "iters", 2) as usize;
+            let p0 = cfg_get(cfg, "permits", 0) as u64;
+            let grants = cfg_get(cfg, "grants", 2) as u64;
+            let p_budget = cfg_get(cfg, "p_budget", 0) as u64;
+            let total = p0 + grants;
+            let sem = $mk(fair, p0 as usize);
+            let circ = Arc::new(AtomicU64::new(p0));
+            let held = Arc::new(AtomicU64::new(0));
+            let hist = Arc::new(History::default());
+            let flog = Arc::new(FairLog::default());
+            let mut hs = Vec::new();
+            {
+                let (sem, circ, hist) = (sem.clone(), circ.clone(), hist.clone());
+                hs.push(thread::spawn(move || {
+                    for _ in 0..grants {
+                        thread::yield_now();
+                        circ.fetch_add(1, SeqCst);
+                        let inv = hist.stamp();
+                        sem.release(1);
+                        hist.record(inv, 99, SM_REL, 1, 0);
+                    }
+                }));
             }
-        }));
-    }
-    for i in 0..n {
-        let (sem, circ, held, hist, flog) = (sem.clone(), circ.clone(), held.clone(), hist.clone(), flog.clone());
-        hs.push(thread::spawn(move || {
-            for it in 0..iters {
-                if draw(100) < 20 {
-                    let inv = hist.stamp();
-                    let v = sem.permits();
-                    hist.record(inv, i as u32, SM_PERMITS, 0, v as u32);
-                }
-                let want = draw(4);
-                // attempt id (unique in the execution) and amount, packed
-                let aid = (((i * 16 + it) as u32) << 8) | want as u32;
-                // a request that can never be satisfied always carries a budget
-                let budget = if want > total || draw(100) < p_budget { Some(draw(5) as u32) } else { None };
-                let rel = if draw(100) < 20 {
-                    let inv = hist.stamp();
-                    let s = inv + 1;
-                    let r = sem.try_acquire(want as usize);
-                    hist.record(inv, i as u32, SM_TRY, aid, r.is_some() as u32);
-                    match r {
-                        Some(r) => {
-                            flog.ents.lock().unwrap().push(FairEnt { who: i as u32, n: want, start: s, reg: 0, last_start: s, ready: hist.stamp() + 1 });
-                            r
+            for i in 0..n {
+                let (sem, circ, held, hist, flog) = (sem.clone(), circ.clone(), held.clone(), hist.clone(), flog.clone());
+                hs.push(thread::spawn(move || {
+                    for it in 0..iters {
+                        if draw(100) < 20 {
+                            let inv = hist.stamp();
+                            let v = sem.permits();
+                            hist.record(inv, i as u32, SM_PERMITS, 0, v as u32);
                         }
-                        None => continue,
+                        let want = draw(4);
+                        // attempt id (unique in the execution) and amount, packed
+                        let aid = (((i * 16 + it) as u32) << 8) | want as u32;
+                        // a request that can never be satisfied always carries a budget
+                        let budget = if want > total || draw(100) < p_budget { Some(draw(5) as u32) } else { None };
+                        let rel = if draw(100) < 20 {
+                            let inv = hist.stamp();
+                            let s = inv + 1;
+                            let r = sem.try_acquire(want as usize);
+                            hist.record(inv, i as u32, SM_TRY, aid, r.is_some() as u32);
+                            match r {
+                                Some(r) => {
+                                    flog.ents.lock().unwrap().push(FairEnt { who: i as u32, n: want, start: s, reg: 0, last_start: s, ready: hist.stamp() + 1 });
+                                    r
+                                }
+                                None => continue,
+                            }
+                        } else {
+                            let fut = fair_stamp(lin_poll(sem.acquire(want as usize), &hist, i as u32, aid, (SM_POLL1, SM_POLLN, SM_CANCEL)), i as u32, want, &hist, &flog);
+                            match budget {
+                                // a request that can never be satisfied is never woken: it must re-poll by itself
+                                Some(b) => match block_on(if want > total { budgeted_spin(fut, b) } else { budgeted(fut, b) }) {
+                                    Some(r) => r,
+                                    None => continue,
+                                },
+                                None => block_on(fut),
+                            }
+                        };
+                        let h = held.fetch_add(want, SeqCst) + want;
+                        if h > circ.load(SeqCst) {
+                            violation("C05", "over-grant", format!("thread {} acquired {} permit(s): {} held in total but only {} exist", i, want, h, circ.load(SeqCst)));
+                        }
+                        thread::yield_now();
+                        held.fetch_sub(want, SeqCst);
+                        let inv = hist.stamp();
+                        drop(rel);
+                        hist.record(inv, i as u32, SM_REL, want as u32, 0);
                     }
-                } else {
-                    let fut = fair_stamp(lin_poll(sem.acquire(want as usize), &hist, i as u32, aid, (SM_POLL1, SM_POLLN, SM_CANCEL)), i as u32, want, &hist, &flog);
-                    match budget {
-                        // a request that can never be satisfied is never woken: it must re-poll by itself
-                        Some(b) => match block_on(if want > total { budgeted_spin(fut, b) } else { budgeted(fut, b) }) {
-                            Some(r) => r,
-                            None => continue,
-                        },
-                        None => block_on(fut),
-                    }
-                };
-                let h = held.fetch_add(want, SeqCst) + want;
-                if h > circ.load(SeqCst) {
-                    violation("C05", "over-grant", format!("thread {} acquired {} permit(s): {} held in total but only {} exist", i, want, h, circ.load(SeqCst)));
-                }
-                thread::yield_now();
-                held.fetch_sub(want, SeqCst);
-                let inv = hist.stamp();
-                drop(rel);
-                hist.record(inv, i as u32, SM_REL, want as u32, 0);
+                }));
             }
-        }));
-    }
-    for h in hs {
-        h.join().unwrap();
-    }
-    // C05 / C07 under threads: every poll of an acquire future, try_acquire(), release,
-    // cancellation and permits() observation must fit one sequential execution of the reference
-    // semaphore (state: permits, wait queue in arrival order; fair: only the head may take
-    // permits and newcomers with n > 0 queue behind waiters)
-    {
-        let ops = hist.ops.lock().unwrap().clone();
-        if ops.len() <= 60 {
-            type St = (u64, Vec<u32>);
-            let mk = move |fifo: bool| {
-                move |st: &St, op: &LinOp| -> Option<St> {
-                    let (permits, q) = (st.0, &st.1);
-                    let id = op.arg >> 8;
-                    let n = (op.arg & 0xff) as u64;
-                    match op.kind {
-                        SM_POLL1 | SM_TRY => {
-                            let can = permits >= n && (!fifo || q.is_empty() || n == 0);
-                            if (op.res != 0) != can {
-                                return None;
+            for h in hs {
+                h.join().unwrap();
+            }
+            // C05 / C07 under threads: every poll of an acquire future, try_acquire(), release,
+            // cancellation and permits() observation must fit one sequential execution of the reference
+            // semaphore (state: permits, wait queue in arrival order; fair: only the head may take
+            // permits and newcomers with n > 0 queue behind waiters)
+            {
+                let ops = hist.ops.lock().unwrap().clone();
+                if ops.len() <= 60 {
+                    type St = (u64, Vec<u32>);
+                    let mk = move |fifo: bool| {
+                        move |st: &St, op: &LinOp| -> Option<St> {
+                            let (permits, q) = (st.0, &st.1);
+                            let id = op.arg >> 8;
+                            let n = (op.arg & 0xff) as u64;
+                            match op.kind {
+                                SM_POLL1 | SM_TRY => {
+                                    let can = permits >= n && (!fifo || q.is_empty() || n == 0);
+                                    if (op.res != 0) != can {
+                                        return None;
+                                    }
+                                    let mut q = q.clone();
+                                    if !can && op.kind == SM_POLL1 {
+                                        q.push(id);
+                                    }
+                                    Some((if can { permits - n } else { permits }, q))
+                                }
+                                SM_POLLN => {
+                                    let can = permits >= n && if fifo { q.first() == Some(&id) } else { q.contains(&id) };
+                                    if (op.res != 0) != can {
+                                        return None;
+                                    }
+                                    let mut q = q.clone();
+                                    if can {
+                                        q.retain(|x| *x != id);
+                                    }
+                                    Some((if can { permits - n } else { permits }, q))
+                                }
+                                SM_CANCEL => {
+                                    let mut q = q.clone();
+                                    q.retain(|x| *x != id);
+                                    Some((permits, q))
+                                }
+                                SM_REL => Some((permits + op.arg as u64, q.clone())),
+                                _ => if op.res as u64 == permits { Some(st.clone()) } else { None },
                             }
-                            let mut q = q.clone();
-                            if !can && op.kind == SM_POLL1 {
-                                q.push(id);
-                            }
-                            Some((if can { permits - n } else { permits }, q))
                         }
-                        SM_POLLN => {
-                            let can = permits >= n && if fifo { q.first() == Some(&id) } else { q.contains(&id) };
-                            if (op.res != 0) != can {
-                                return None;
+                    };
+                    if let Err(k) = lin::check(&ops, (p0, Vec::new()), &mk(fair)) {
+                        let mut sorted = ops.clone();
+                        sorted.sort_by_key(|o| o.inv);
+                        let names = ["?", "release", "permits", "first-poll", "re-poll", "try_acquire", "cancel"];
+                        let txt: Vec<String> = sorted
+                            .iter()
+                            .map(|o| if o.kind >= SM_POLL1 { format!("[{}..{}] t{} {}(#{}, n={})={}", o.inv, o.ret, o.thread, names[o.kind as usize], o.arg >> 8, o.arg & 0xff, o.res) } else { format!("[{}..{}] t{} {}({})={}", o.inv, o.ret, o.thread, names[o.kind as usize], o.arg, o.res) })
+                            .collect();
+                        // which property: successful acquisitions / releases / permits() alone (conservation)
+                        let conservation = |st: &u64, op: &LinOp| -> Option<u64> {
+                            let n = (op.arg & 0xff) as u64;
+                            match op.kind {
+                                SM_POLL1 | SM_TRY | SM_POLLN => if op.res == 0 { Some(*st) } else if *st >= n { Some(*st - n) } else { None },
+                                SM_CANCEL => Some(*st),
+                                SM_REL => Some(*st + op.arg as u64),
+                                _ => if op.res as u64 == *st { Some(*st) } else { None },
                             }
-                            let mut q = q.clone();
-                            if can {
-                                q.retain(|x| *x != id);
-                            }
-                            Some((if can { permits - n } else { permits }, q))
-                        }
-                        SM_CANCEL => {
-                            let mut q = q.clone();
-                            q.retain(|x| *x != id);
-                            Some((permits, q))
-                        }
-                        SM_REL => Some((permits + op.arg as u64, q.clone())),
-                        _ => if op.res as u64 == permits { Some(st.clone()) } else { None },
+                        };
+                        let conserved = lin::check(&ops, p0, &conservation).is_ok();
+                        let (prop, what) = if !conserved { ("C05", "not even the permit count can be explained") } else if fair { ("C07", "permits are conserved, but the outcomes of polls / try_acquire contradict the wait queue order") } else { ("C06", "permits are conserved, but a poll / try_acquire was refused although its request fitted") };
+                        violation(prop, "not-linearizable", format!("polls of acquire futures, try_acquire(), cancellations, releases and permits() results have no sequential explanation (fair = {}; at most {} of {} operations can be ordered; initial permits {}; {}): {}", fair, k, ops.len(), p0, what, txt.join("; ")));
                     }
                 }
-            };
-            if let Err(k) = lin::check(&ops, (p0, Vec::new()), &mk(fair)) {
-                let mut sorted = ops.clone();
-                sorted.sort_by_key(|o| o.inv);
-                let names = ["?", "release", "permits", "first-poll", "re-poll", "try_acquire", "cancel"];
-                let txt: Vec<String> = sorted
-                    .iter()
-                    .map(|o| if o.kind >= SM_POLL1 { format!("[{}..{}] t{} {}(#{}, n={})={}", o.inv, o.ret, o.thread, names[o.kind as usize], o.arg >> 8, o.arg & 0xff, o.res) } else { format!("[{}..{}] t{} {}({})={}", o.inv, o.ret, o.thread, names[o.kind as usize], o.arg, o.res) })
-                    .collect();
-                // which property: successful acquisitions / releases / permits() alone (conservation)
-                let conservation = |st: &u64, op: &LinOp| -> Option<u64> {
-                    let n = (op.arg & 0xff) as u64;
-                    match op.kind {
-                        SM_POLL1 | SM_TRY | SM_POLLN => if op.res == 0 { Some(*st) } else if *st >= n { Some(*st - n) } else { None },
-                        SM_CANCEL => Some(*st),
-                        SM_REL => Some(*st + op.arg as u64),
-                        _ => if op.res as u64 == *st { Some(*st) } else { None },
-                    }
-                };
-                let conserved = lin::check(&ops, p0, &conservation).is_ok();
-                let (prop, what) = if !conserved { ("C05", "not even the permit count can be explained") } else if fair { ("C07", "permits are conserved, but the outcomes of polls / try_acquire contradict the wait queue order") } else { ("C06", "permits are conserved, but a poll / try_acquire was refused although its request fitted") };
-                violation(prop, "not-linearizable", format!("polls of acquire futures, try_acquire(), cancellations, releases and permits() results have no sequential explanation (fair = {}; at most {} of {} operations can be ordered; initial permits {}; {}): {}", fair, k, ops.len(), p0, what, txt.join("; ")));
             }
+            if fair {
+                flog.check("C07", "semaphore");
+            }
+            if sem.permits() as u64 != total {
+                violation("C05", "permits-not-conserved", format!("everything was dropped: permits() = {} but initial + released = {}", sem.permits(), total));
+            }
+            queues_must_be_empty("semaphore", sem.verif_snapshot(&mut |_| false));
         }
+    };
+}
+def_t_sem!(t_sem_borrowed, |fair: bool, p: usize| Arc::new(GenericSemaphore::<M>::new(fair, p)));
+def_t_sem!(t_sem_shared, |fair: bool, p: usize| futures_intrusive::sync::GenericSharedSemaphore::<M>::new(fair, p));
+
+fn t_sem(cfg: &Cfg) {
+    if cfg_get(cfg, "shared", 0) != 0 {
+        t_sem_shared(cfg)
+    } else {
+        t_sem_borrowed(cfg)
     }
-    if fair {
-        flog.check("C07", "semaphore");
-    }
-    if sem.permits() as u64 != total {
-        violation("C05", "permits-not-conserved", format!("everything was dropped: permits() = {} but initial + released = {}", sem.permits(), total));
-    }
-    queues_must_be_empty("semaphore", sem.verif_snapshot(&mut |_| false));
 }
 
 fn cfg_sem(rng: &mut Rng) -> Cfg {
@@ -602,6 +618,7 @@ fn cfg_sem(rng: &mut Rng) -> Cfg {
     c.insert("fair".into(), rng.below(2) as i64);
     c.insert("permits".into(), rng.range(0, 2));
     c.insert("grants".into(), rng.range(1, 3));
+    c.insert("shared".into(), rng.pct(40) as i64);
     c
 }
 
@@ -1250,7 +1267,85 @@ fn t_oneshot_borrowed(cfg: &Cfg) {
     }
 }
 
+/// shared single-consumer oneshot: sender and receiver handles on different threads; the
+/// sender sends or just goes away, the receiver receives (with cancellations) or goes away early,
+/// and a receive future may outlive its receiver handle
+fn t_oneshot_shared_single(cfg: &Cfg) {
+    let p_budget = cfg_get(cfg, "p_budget", 0) as u64;
+    let (tx, rx) = sh::generic_oneshot_channel::<M, u32>();
+    let obs = tx.verif_observer();
+    let sent_ok = Arc::new(AtomicU64::new(0));
+    let h_tx = {
+        let sent_ok = sent_ok.clone();
+        thread::spawn(move || {
+            if draw(4) == 0 {
+                // closes the channel without a value
+                drop(tx);
+                return;
+            }
+            if draw(2) == 0 {
+                thread::yield_now();
+            }
+            match tx.send(7) {
+                Ok(()) => {
+                    sent_ok.store(1, SeqCst);
+                    // a second send on the used channel must fail and hand the value back
+                    match tx.send(8) {
+                        Ok(()) => violation("C12", "second-send-succeeded", "a second send on a oneshot channel succeeded".into()),
+                        Err(e) => {
+                            if e.0 != 8 {
+                                violation("C12", "wrong-value-handed-back", format!("the rejected second send got value {} back", e.0));
+                            }
+                        }
+                    }
+                }
+                Err(e) => {
+                    // only legal if the receiver side is gone
+                    if e.0 != 7 {
+                        violation("C12", "wrong-value-handed-back", format!("the rejected send got value {} back", e.0));
+                    }
+                    sent_ok.store(2, SeqCst);
+                }
+            }
+        })
+    };
+    let got: Arc<AtomicU64> = Arc::new(AtomicU64::new(u64::MAX));
+    let h_rx = {
+        let got = got.clone();
+        thread::spawn(move || match draw(4) {
+            0 => drop(rx),
+            1 => {
+                // the future outlives the receiver handle (dropping the handle closes the channel)
+                let f = rx.receive();
+                drop(rx);
+                let v = block_on(f);
+                got.store(v.map(|x| x as u64).unwrap_or(0), SeqCst);
+            }
+            _ => {
+                let v = with_cancellations(p_budget, || rx.receive());
+                got.store(v.map(|x| x as u64).unwrap_or(0), SeqCst);
+            }
+        })
+    };
+    h_tx.join().unwrap();
+    h_rx.join().unwrap();
+    let (s, g) = (sent_ok.load(SeqCst), got.load(SeqCst));
+    if g != u64::MAX && g != 0 && g != 7 {
+        violation("C12", "wrong-value", format!("the receiver got {}", g));
+    }
+    if g == 7 && s != 1 {
+        violation("C12", "value-from-nowhere", "the receiver got the value although no send succeeded".into());
+    }
+    if g == 0 && s == 1 {
+        violation("C12", "sent-value-not-received", "send() succeeded and the receiver waited to the end, but its receive yielded None".into());
+    }
+    queues_must_be_empty("oneshot channel", obs.verif_snapshot(&mut |_| false));
+}
+
 fn t_oneshot(cfg: &Cfg) {
+    if cfg_get(cfg, "mode", 0) == 3 {
+        return t_oneshot_shared_single(cfg);
+    }
     if cfg_get(cfg, "mode", 0) != 0 {
         return t_oneshot_borrowed(cfg);
     }
@@ -1301,8 +1396,9 @@ fn t_oneshot(cfg: &Cfg) {
 fn cfg_oneshot(rng: &mut Rng) -> Cfg {
     let mut c = Cfg::new();
     base_cfg(rng, &mut c);
-    // 0 = shared broadcast with receiver churn, 1 = borrowed single-consumer, 2 = borrowed broadcast
-    c.insert("mode".into(), rng.below(3) as i64);
+    // 0 = shared broadcast with receiver churn, 1 = borrowed single-consumer, 2 = borrowed broadcast,
+    // 3 = shared single-consumer
+    c.insert("mode".into(), rng.below(4) as i64);
     c
 }
 
